@@ -132,6 +132,15 @@ def gen_general(rng, nq=(6, 12), mix=None, ref_family=None, lattice_cfg=False, p
             truths[str(rid)] = truths.pop(str(victim["id"]), None)
             victim["id"] = rid
             queries.sort(key=lambda q: q["id"])
+    if rng.random() < 0.1 and fam != "lattice":
+        dref, starts, kb = W.ref_with_copies(rng, max(r["id"] for r in refs) + rng.randint(1, 30), (0.0, 0.0))
+        refs.append(dref)
+        for _ in range(rng.randint(2, 4)):
+            a_ = rng.randint(0, 2)
+            qid_ = max(q["id"] for q in queries) + rng.randint(1, 40)
+            q_, t_ = W.q_planted(rng, qid_, dref, force=(starts[0] + a_, kb - 2 * a_))
+            queries.append(q_)
+            truths[str(qid_)] = t_
     if rng.random() < 0.2 and queries:
         # two molecules with identical label patterns under different ids
         src_q = rng.choice(queries)
@@ -644,6 +653,10 @@ class C06(Base):
             i_ = rng.randint(12, len(ref["pos"]) - k_ - 5)
             W.near_palindrome(rng, ref, i_, k_, rng.choice([120.0, 700.0]))   # a window that nearly equals its mirror image
             forced += [((i_, k_), True), ((i_, k_), False)]
+        if dec and rng.random() < 0.15:
+            # four look-alike placements of one block, graded: exact, then noisier and noisier copies further along
+            ref, starts_, kb_ = W.ref_with_copies(rng, ref["id"], (0.0, 450.0, 700.0, 1000.0))
+            forced = [((starts_[0] + 1, kb_ - 2), None), ((starts_[0], kb_), True)]
         n = rng.randint(4, 12)
         ids = W.distinct_ids(rng, n, 1, 5000)
         queries, truths = [], {}
@@ -708,6 +721,16 @@ class C06(Base):
                             and max(c["row"]["conf"] for c in true_c) <= float(rec["Confidence"]) + 0.005:
                         sig = f"alternative-copy|{mode}"
                         rep.probes["alternative_copy_placements"] += 1
+                    elif not true_c:
+                        # The true placement was never built.  Was its seed peak among the -p best at all?  (independent
+                        # re-computation of the seeding step, default parameters)
+                        try:
+                            rank = O.seed_rank(maps.refs[t["ref"]]["pos"], qrym["pos"], maps.refs[t["ref"]]["pos"][t["i"]])
+                        except Exception:  # noqa: BLE001
+                            rank = "unknown"
+                        if rank in ("below-cut", "tie-at-cut"):
+                            sig = f"seed-below-cut|{mode}"
+                            rep.probes["true_seed_below_the_cut"] += 1
                 if int(rec["RefContigID"]) != t["ref"] or (rec["Orientation"] == "-") != t["reverse"]:
                     rep.add([O.V("placement", f"{mode}: planted query {qid} reported on ref {rec['RefContigID']} strand "
                                               f"{rec['Orientation']}", sig, record=rec["line"], file=n)], k)
@@ -1102,9 +1125,14 @@ class C09(Base):
         if rng.random() < 0.5:
             for ex in exs[1:]:
                 ex["keep_outputs"] = True      # a repetition into the same output path, without cleaning up in between
-        if rng.random() < 0.15:
+        if rng.random() < 0.25:
             for ex in exs:
                 ex["stdout"] = True            # -o omitted: the main XMAP is whatever arrives on the process's stdout
+        if rng.random() < 0.35:
+            base_ = case["filesets"]["base"]     # a short extra contig: some queries are longer than it
+            short = W.ref_random(rng, max(r["id"] for r in base_["refs"]) + rng.randint(1, 9), rng.randint(4, 12))
+            base_["refs"].append(W.strip(short))
+            base_["r_layout"] = W.layout(rng, len(base_["refs"]))
         case["executions"] = exs
         w = getattr(rng, "world_index", None)
         if (w % 41 == 3) if w is not None else rng.random() < 0.012:
@@ -1701,6 +1729,18 @@ class C18(Base):
                 rep.probes["readback_short_reads"] += rb.get("short_reads", 0)
                 rep.probes["one_record_files"] += len(p["records"]) == 1
                 rep.add(O.c18_file(p, rb, maps, n), k)
+                frows = rows_by_file(out).get(n)
+                if rb.get("ok") and frows and len(frows) == len(rb["alignments"]) == len(p["records"]):
+                    for rec, row, a in zip(p["records"], frows, rb["alignments"]):
+                        rep.clauses["conf-two-decimals"] += 1
+                        try:
+                            if abs(float(a["conf"]) - row["conf"]) > 0.005 + 1e-9 * abs(row["conf"]):
+                                rep.add([O.V("conf-two-decimals", f"{n}: the alignment's confidence is {row['conf']:.4f}, read back "
+                                                                  f"{a['conf']} (not equal to two decimals)", "conf-two-decimals",
+                                             record=rec["line"], file=n)], k)
+                                break
+                        except (TypeError, ValueError):
+                            pass
             if any(p["records"] for p in parsed.values()):
                 rep.nontrivial.append(ctx.last_files_digest)
         return rep
